@@ -89,6 +89,7 @@ package font
 //@     decreases len(data) - i
 //@   loop 2:
 //@     invariant 0 <= j && j <= width && i + width <= len(data) && 0 <= i
+//@     decreases width - j
 
 //@ func (*CMap) LookupString results (r)
 //@   property C07, C02
